@@ -61,7 +61,7 @@ func parseValMask(s string) (uint64, uint64, error) {
 	return n, mask, err
 }
 
-func parseRule(fields []string) *rule {
+func parseRule(fields []string, v6 bool) *rule {
 	r := &rule{text: strings.Join(fields, " ")}
 	neg := false
 	module := ""
@@ -128,6 +128,9 @@ func parseRule(fields []string) *rule {
 			p, err := netip.ParsePrefix(v)
 			if err != nil {
 				return fail("bad prefix %q", v)
+			}
+			if p.Addr().Is6() != v6 { // iptables refuses IPv6 literals, ip6tables IPv4 ones
+				return fail("address family of %q does not fit the table family", v)
 			}
 			k := "dst"
 			if f == "-s" {
@@ -218,7 +221,7 @@ func parseRule(fields []string) *rule {
 }
 
 // loadText applies one iptables-restore input (--noflush into empty tables).
-func loadText(lines []string) *ruleset {
+func loadText(lines []string, v6 bool) *ruleset {
 	rs := &ruleset{tables: map[string]map[string][]*rule{}, nUser: map[string]int{}}
 	table := ""
 	for _, l := range lines {
@@ -248,7 +251,7 @@ func loadText(lines []string) *ruleset {
 			rs.tables[table][f[1]] = []*rule{}
 			rs.nUser[table]++
 		case f[0] == "-A" && len(f) >= 2:
-			r := parseRule(f[2:])
+			r := parseRule(f[2:], v6)
 			if r.err != "" {
 				rs.err = r.err + " in: " + l
 			}
@@ -260,7 +263,7 @@ func loadText(lines []string) *ruleset {
 				rs.err = "insert index out of range: " + l
 				continue
 			}
-			r := parseRule(f[3:])
+			r := parseRule(f[3:], v6)
 			if r.err != "" {
 				rs.err = r.err + " in: " + l
 			}
